@@ -953,6 +953,7 @@ func c19RunValues(c *lib.Ctx, cases []c19ValCase, allMargins bool) {
 	}
 	replies := c.Model(reqs)
 	topUnreadable := map[string]bool{}
+	shapeReported := map[string]bool{}
 	for i, cs := range cases {
 		if cs.sweep {
 			// single cause: an element whose own load form cannot be read back (cell top/<e>) fails the
@@ -988,7 +989,17 @@ func c19RunValues(c *lib.Ctx, cases []c19ValCase, allMargins bool) {
 			}
 			modelForm = mt.canon().String()
 			if obs == nil && (formTerm == nil || formTerm.canon().String() != modelForm) {
-				obs = &c19Obs{Aspect: "form-shape", Form: formText, Observed: formText, Expected: "the model's load form (model_form)"}
+				// the property holds on the implementation for this value but its load form is not the
+				// model's: the correspondence no longer checks (no failing input), once per cell / kind
+				name := "model:lf.form " + cs.Cell
+				if !cs.sweep {
+					name = "model:lf.form kind=" + cs.Val.kindLabel()
+				}
+				if !shapeReported[name] {
+					shapeReported[name] = true
+					o := &c19Obs{Aspect: "form-shape", Form: formText, Observed: formText, Expected: "the model's load form (model_form)"}
+					c.ReportBroken(name, c19ValueReplay(cs, o, modelForm))
+				}
 			}
 		}
 		if i%(len(cases)/4+1) == 0 {
